@@ -141,13 +141,10 @@ def run(ctx):
     for h, src in (("from_nested_meta", "a1"), ("from_value", "a1"), ("from_expr", "a1")):
         f = ctx.fn("<darling_core::util::spanned_value::SpannedValue<T> as %s>::%s" % (FM, h))
         if f:
-            ok = False
-            for c in ctx.closures_of(f):
-                for blk, t in ctx.find_calls(c, r"SpannedValue::<T>::new$"):
-                    sp = ctx.expr(c, t["args"][1])
-                    if re.search(r"span\(", sp):
-                        ok = True
-            ctx.ob("C12.E.spanned-value-span-per-form", f.key, "value span of the node itself", ok, "SpannedValue::new(value, node.span())")
+            cs = resalg.cases(ctx, f)
+            good = [v for c, v in cs if v.startswith("core::result::Result::Ok{")]
+            ok = bool(good) and all(re.match(r"^core::result::Result::Ok\{darling_core::util::spanned_value::SpannedValue::<T>::new\(\(.* as Ok\)\.0, [^()]*::span\(a1\)\)\}$", v) for v in good)
+            ctx.ob("C12.E.spanned-value-span-per-form", f.key, "value span of the node itself", ok, "SpannedValue::new(value, node.span()): Ok cases %s" % [v[:200] for v in good])
     f = ctx.fn("<darling_core::util::flag::Flag as %s>::from_none" % FM)
     if f:
         rs = ctx.ret_values(f)
